@@ -160,7 +160,21 @@ func VerifC02JsonTxBytes() {
 
 	t := &verifC02Tx{slot: a.lo() + 1, hasPos: true, pos: 4, sig: w.sigs[0]}
 	layout := verifChoice("layout", verifParam("layouts", 2)) * 2 // single legacy frame / two frames
-	t.data = a.payloadBytes(wire, 1+64*nsig, layout, false)
+	// two frames: the first frame holds the count, all signatures and its share of the message (0), or
+	// ends right after the first signature (1), inside the second signature (2), right after the last (3)
+	firstFrame := -1
+	if layout != verifC02OneFrameLegacy {
+		cuts := []int{-1, verifC02TxHead, verifC02TxHead + 17, 1 + 64*nsig}
+		if nsig == 1 {
+			cuts = cuts[:2]
+		}
+		firstFrame = cuts[verifChoice("firstFrameCut", len(cuts))]
+	}
+	if firstFrame >= 0 {
+		t.data = a.payloadBytesExact(wire, firstFrame, layout, false)
+	} else {
+		t.data = a.payloadBytes(wire, 1+64*nsig, layout, false)
+	}
 	t.meta = a.payload("txMeta", 2, verifC02OneFrameLegacy, false)
 	a.txs = append(a.txs, a.addTx(t))
 
